@@ -33,6 +33,14 @@ GROUPS = {
     },
 }
 
+GROUPS["fontdrasil-c4"] = {
+    "package": "fontdrasil",
+    "t1_crates": ["fontdrasil"],
+    "t2_crates": ["fontdrasil"],
+    "harness": {
+        "fontdrasil/src/orchestration.rs": "harness/fontdrasil/orchestration.rs",
+    },
+}
 GROUPS["fontir"] = {
     "package": "fontir",
     "t1_files": ["fontir/src/feature_variations.rs"],
@@ -40,6 +48,7 @@ GROUPS["fontir"] = {
     "shim_features": ["cap2"],
     "harness": {
         "fontir/src/feature_variations.rs": "harness/fontir/feature_variations.rs",
+        "fontir/src/ir.rs": "harness/fontir/ir.rs",
     },
 }
 
@@ -194,7 +203,33 @@ H("c13_lexer_char_boundaries_2byte", "C13", "fea-rs", "parse::lexer", funcs=_lex
 H("c13_expecting_path_transitions", "C13", "fea-rs", "parse::lexer", funcs=[L + "::ExpectingPath::transition"], bound="3 states x 5 token kinds",
   oracle="InPath is entered only by `(` directly after `include` (whitespace keeps the armed state)")
 
+A = "fontir/src/ir.rs::AnchorKind::new"
+H("c10_anchor_kind_len3", "C10", "fontir", "ir", mem_gb=12, funcs=[A], bound="every 3-byte name over {_, a, 0, 1, 2}; unwind 8",
+  oracle="independent classification: _NN component marker (0 rejected), __N rejected, _x mark(x), x_N ligature(x,N) (0 rejected), else base(name)")
+for _n in ["c10_group_of_mark_anchor", "c10_group_of_base_anchor", "c10_group_of_ligature_anchor"]:
+    H(_n, "C10", "fontir", "ir", tier="thorough", funcs=[A], bound="group names g of 2 bytes over {a,b}x{a,b,1}", oracle="the anchor built from g carries group name g (so _g, g and g_N meet)")
+H("c10_caret_and_cursive_names", "C10", "fontir", "ir", mem_gb=12, funcs=[A], bound="caret_/vcaret_ + one byte of {0,1,2,a}; entry; exit", oracle="caret/vcaret with index (default 1, 0 rejected); entry/exit cursive")
+
+O = "fontdrasil/src/orchestration.rs"
+H("c02_access_check_leaf", "C02", "fontdrasil-c4", "orchestration", funcs=[O + "::Access::check"], bound="I = TestId (A, B, C(0..2)); rule id and probe symbolic",
+  oracle="Specific by equality, Variant by discriminant, None/Unknown nothing, All everything")
+H("c02_access_builder_union_3", "C02", "fontdrasil-c4", "orchestration", funcs=[O + "::AccessBuilder::{add_access,variant,specific_instance,build}", O + "::Access::check", O + "::AccessType::check"],
+  bound="3 additions, each variant/specific symbolic, ids and probe symbolic over TestId; container capacity 4", oracle="check(q) <=> q matches one of the additions")
+H("c02_access_builder_small", "C02", "fontdrasil-c4", "orchestration", funcs=[O + "::AccessBuilder::add_access", O + "::Access::check"],
+  bound="0, 1 and 2 additions", oracle="exactly the union; the first entry survives the upgrade to a Set")
+H("c02_default_write_access", "C02", "fontdrasil-c4", "orchestration", funcs=[O + "::Work::write_access (default)", O + "::Work::read_access (default)"],
+  bound="work id symbolic, also_completes of 0..2 symbolic ids", oracle="write access admits exactly own id + also_completes; default read access admits nothing")
+H("c02_acl_silent_when_admitted", "C02", "fontdrasil-c4", "orchestration", funcs=[O + "::assert_access_one", O + "::assert_access_many"],
+  bound="2-entry read rule, admitted probe", oracle="no panic")
+H("c02_acl_panics_when_not_admitted", "C02", "fontdrasil-c4", "orchestration", funcs=[O + "::assert_access_one"],
+  bound="specific write rule, any other id", oracle="the illegal-write panic is raised (kani::should_panic)")
+
 PROPERTIES = {
+    "C02": {"outside": "everything about scheduling: Workload::can_run / is_dep_fulfilled (did not fit CBMC in three attempts: 15-17 GB), handle_success access rewriting, real threads, atomics ordering, "
+                       "channel delivery, dynamic job creation, and whether each job's read_access declares everything exec reads",
+            "assumptions": ["kernel-level claim: the access-rule matcher only, for the instantiation I = TestId; production ids differ in Eq/discriminant (derived / hand-written matches)"]},
+    "C10": {"outside": "anchor coordinates at masters (their delta arithmetic is C07), propagation through composites, mark-group and lookup construction (fontbe/features/marks.rs: name-keyed maps in a job body), GDEF classes",
+            "assumptions": ["kernel-level claim: the anchor name -> kind function only"]},
     "C13": {"outside": "the parser proper (Parser, AstSink, grammar, contextual-rule reparse), include resolution and the include graph (IncludeGraph::validate exhausted CBMC at 21-23 GB), "
                        "diagnostics ranges, validation; windows longer than 5 bytes; chars of 3 and 4 bytes",
             "assumptions": ["'the tree's token texts concatenate to the input' is decided as 'the lexeme lengths the tree is built from sum to the input length, at char boundaries'"]},
